@@ -864,6 +864,42 @@ def check_bits(ctx, repo):
                 ok_mixed = True
                 ctx.violation(rule, fi, st, 'the mixed-pattern class is not {(p & dont_care) | fixed}', n.lineno, clause='f')
     if not ok_mixed:
+        # Round 8: the sub-masks of the dont-care mask walked with  while s: ...; s = (s - 1) & mask
+        # visit every non-empty subset and stop before the empty one: the byte whose free bits are
+        # all clear (the fixed pattern itself) must be added apart, or it is missing from the class
+        for fn_ in repo.reach(fi, depth=2) if hasattr(repo, 'reach') else [fi]:
+            par_ = {}
+            for pn in ast.walk(fn_.node):
+                for c_ in ast.iter_child_nodes(pn):
+                    par_[id(c_)] = pn
+            for wl in ast.walk(fn_.node):
+                if not (isinstance(wl, ast.While) and isinstance(wl.test, ast.Name)):
+                    continue
+                v = wl.test.id
+                step = [a for a in ast.walk(wl) if isinstance(a, ast.Assign) and len(a.targets) == 1 and canon(a.targets[0]) == v and isinstance(a.value, ast.BinOp)
+                        and isinstance(a.value.op, ast.BitAnd) and any(isinstance(x, ast.BinOp) and isinstance(x.op, ast.Sub) and canon(x.left) == v for x in ast.walk(a.value))]
+                if not step:
+                    continue
+                ok_mixed = True
+                blk = None
+                pp = par_.get(id(wl))
+                for fld in ('body', 'orelse', 'finalbody'):
+                    b_ = getattr(pp, fld, None)
+                    if isinstance(b_, list) and wl in b_:
+                        blk = b_
+                after = blk[blk.index(wl) + 1:] if blk else []
+                before = blk[:blk.index(wl)] if blk else []
+                lists_ = {canon(x.func.value) for x in ast.walk(wl) if isinstance(x, ast.Call) and isinstance(x.func, ast.Attribute) and x.func.attr in ('append', 'add', 'insert')}
+                apart = [x for st_ in after + before for x in ast.walk(st_) if isinstance(x, ast.Call) and isinstance(x.func, ast.Attribute) and x.func.attr in ('append', 'insert', 'add', 'extend')
+                         and canon(x.func.value) in lists_]
+                seeded_list = [x for st_ in before for x in ast.walk(st_) if isinstance(x, ast.Assign) and isinstance(x.value, (ast.List, ast.Set)) and x.value.elts
+                               and canon(x.targets[0]) in lists_]
+                st = 'while %s: ...; %s' % (v, stmt_text(step[0])[:60])
+                if apart or seeded_list:
+                    ctx.undecided(rule, fn_, st, 'sub-mask walk with an element added apart: cannot see that it is the empty sub-mask (the fixed pattern itself)', wl.lineno, clause='f')
+                else:
+                    ctx.violation(rule, fn_, st, 'the walk over the sub-masks of the dont-care bits stops before the empty sub-mask: the byte whose dont-care bits are all 0 (the fixed pattern itself) is missing from the character class, so a packet with those bits clear is rejected by the pre-filter', wl.lineno, clause='f', witness=True)
+    if not ok_mixed:
         ctx.undecided(rule, fi, 'mixed pattern class', 'comprehension not found', fi.node.lineno, clause='f')
     # masks: fixed = byte.replace('x','0'); dont_care = byte.replace('1','0').replace('x','1')
     for n in src_nodes:
